@@ -30,6 +30,9 @@ func init() {
 // Extract will extract the constant parts of a MongoDB query. The returned
 // document may be used as the basis of an upsert operation.
 func Extract(query bsonkit.Doc) (bsonkit.Doc, error) {
+	// clone query as its values become part of the extracted document
+	query = bsonkit.Clone(query)
+
 	// prepare doc
 	doc := &bson.D{}
 
